@@ -554,6 +554,60 @@ func genGlobals() (string, string) {
 	return "Globals.lean", b.String()
 }
 
+// fanoutOrderFact: in types.(*Project).WithServicesTransform every access to `newProject.Services` made by the calling
+// goroutine itself (outside the function literals handed to eg.Go) precedes the first `eg.Go(` — the order the Lean
+// model's initial state (`CV.Fanout.init`: read, then collector start) assumes.
+func fanoutOrderFact() (found bool, ok bool, nGo int) {
+	f := parse("types/project.go")
+	for _, d := range f.Decls {
+		fd, isFn := d.(*ast.FuncDecl)
+		if !isFn || fd.Name.Name != "WithServicesTransform" || fd.Body == nil {
+			continue
+		}
+		found = true
+		firstGo := token.NoPos
+		var outer []token.Pos
+		var walk func(n ast.Node, inLit bool)
+		walk = func(n ast.Node, inLit bool) {
+			ast.Inspect(n, func(x ast.Node) bool {
+				switch v := x.(type) {
+				case *ast.FuncLit:
+					if v != n {
+						walk(v.Body, true)
+						return false
+					}
+				case *ast.CallExpr:
+					if src(v.Fun) == "eg.Go" {
+						nGo++
+						if firstGo == token.NoPos || v.Pos() < firstGo {
+							firstGo = v.Pos()
+						}
+					}
+				case *ast.SelectorExpr:
+					if !inLit && src(v) == "newProject.Services" {
+						outer = append(outer, v.Pos())
+					}
+				}
+				return true
+			})
+		}
+		walk(fd.Body, false)
+		ok = firstGo != token.NoPos
+		for _, p := range outer {
+			if p > firstGo {
+				ok = false
+			}
+		}
+	}
+	return
+}
+
 func init() {
-	extraGenerators = append(extraGenerators, genGlobals)
+	extraGenerators = append(extraGenerators, func() (string, string) {
+		name, content := genGlobals()
+		found, ok, nGo := fanoutOrderFact()
+		extra := fmt.Sprintf("\n/-- `WithServicesTransform` exists, starts its goroutines with `eg.Go` (%d call sites), and the calling goroutine's own\n    accesses to `newProject.Services` all precede the first of them -/\ndef fanoutFieldReadPrecedesSpawn : Bool := %v\n\nend CV.Gen\n", nGo, found && ok && nGo == 2)
+		content = strings.Replace(content, "\nend CV.Gen\n", extra, 1)
+		return name, content
+	})
 }
